@@ -3,7 +3,9 @@
 import json, os
 ROOT = os.path.dirname(os.path.dirname(os.path.abspath(__file__)))
 TECH = "Lean 4 theorem on a hand-written model + differential correspondence (real code vs. compiled model) + Lean monitor (the theorem's predicate) on implementation traces"
-NOTE_COMMON = ("Trusted: Lean kernel (axioms propext, Classical.choice, Quot.sound only; audited each run), the hand-written model and "
+NOTE_COMMON = ("Tables and constants shared with the source (verb chain, reply-class thresholds, line limit, block sizes) are regenerated "
+               "from the tree on every run (tools/gen_source_facts.py -> Ftp/Generated/SourceFacts.lean) and proved equal to the model's (Props/*s.lean). "
+               "Trusted: Lean kernel (axioms propext, Classical.choice, Quot.sound only; audited each run), the hand-written model and "
                "reference spec, the harness/generators; the tie model<->code is differential testing (sampling + stated exhaustive scopes), not proof. ")
 
 CLAIMS = {
@@ -50,6 +52,8 @@ CLAIMS = {
         "during the call, in order, nothing is left unread, and the session is in step for the next call (lockstep, stays_in_step; both "
         "are shown false without the full-script hypothesis - a modelling artefact of the scripted server). The two recorded findings are "
         "theorems about the model as well (fails_on_abor_after_completion, fails_on_rein_120) and KNOWN-FINDING lines of the check. "
+        "History level (C02h.lean, induction over the list of calls, any environment preparation between calls): in a history of "
+        "any length whose calls return against such servers every call is answered in lockstep and leaves nothing unread. "
         "Correspondence + monitor: random and directed histories of all calls x four methods x cancellation points, in-memory control "
         "channel with scripted cuts, real loopback data; TLS and plain sessions over real sockets (e2e stage).",
    note="Two genuine defects are recorded rather than repaired (known_findings.json K1, K2): ABOR answered by a server that had already "
@@ -112,14 +116,18 @@ CLAIMS = {
    text="Theorems for every API call in every state (any server behaviour, any fault): the transcript events (connect, command written, "
         "reply framed, listing) and the observer events of the call are interleaved exactly as prescribed - each command announced to "
         "every registered observer in registration order immediately before it is written, each connect / reply / listing immediately "
-        "after; hence a registered observer's log equals the transcript and an unregistered one is silent. Correspondence: real client "
+        "after; hence a registered observer's log equals the transcript and an unregistered one is silent. History level (C14h.lean): for "
+        "histories of every length with observers registered / unregistered between calls, an observer's log is exactly the transcript of "
+        "the calls made while it was registered. Correspondence: real client "
         "with three recording observers added / removed at random points of random histories (refused, cancelled, multi-reply calls).",
    note="Observer registration changes only between calls (add_observer / remove_observer are not modelled as racing with a call).", ref="DESIGN.md section 7 C14"),
  "C17": dict(
    text="Theorems for every API call in every state, whatever the server answers, whether connects succeed, whatever the data socket "
         "delivers, wherever sink / source / write / close fail, returned or thrown: every data or listening descriptor opened during the "
         "call is closed during it exactly once, descriptors are fresh, no data_connection object survives, and the control socket is "
-        "accounted for by connect / close events. Correspondence: libc interposition (socket/accept/close) on long random histories mixing "
+        "accounted for by connect / close events. History level (C17h.lean, induction over the list of calls): for histories of "
+        "every length, whatever happens between and during the calls, opened descriptors = closed descriptors, none used twice, no "
+        "data_connection object alive between calls - the count does not grow with the number of operations. Correspondence: libc interposition (socket/accept/close) on long random histories mixing "
         "successful, refused, cancelled and failing transfers in all four methods; descriptor count after each call and after destruction.",
    note="Kernel descriptor semantics are observed, not modelled; TLS data sockets are exercised by the C11/C18 stages.", ref="DESIGN.md section 7 C17"),
  "C10": dict(
